@@ -11,6 +11,7 @@ Two ties to the source under test, both re-established on every run:
 """
 import json
 import os
+import re
 
 import numpy as np
 
@@ -41,6 +42,12 @@ ASSUMPTIONS = [
     "trajectory data finite (no NaN/inf); PoseTrajectory3D has one timestamp per pose, strictly increasing for speeds",
     "rendering with the non-interactive Agg backend; artists are inspected after each call, pixels are not",
     "plot_mode is one of the 7 members of PlotMode, length_unit one of LENGTH_UNITS (other units: PlotException, proved)",
+    "axis readings: trajectory coordinates are metres (evo's convention: 'trajectory data is still expected in meters'), the "
+    "unit strings mm / cm / m / km of the axis labels have their SI meaning; the reading of a plotted point is the label the "
+    "axis' major formatter prints for its drawn coordinate (the coordinate itself under matplotlib's default ScalarFormatter) "
+    "and must equal the coordinate in the labelled unit within the rounding of the printed format (relative 1e-5 for the 6 "
+    "significant digits of '%g'; half a unit of the last digit for a coarser format) - whether the unit is realised by "
+    "scaled tick labels or by scaled data",
 ]
 
 MODES = ["xy", "xz", "yx", "yz", "zx", "zy", "xyz"]
@@ -240,6 +247,41 @@ def _call(fn):
         return type(e).__name__
 
 
+def _sig_digits(s):
+    """number of significant digits a printed number shows (mantissa only)"""
+    m = re.match(r"^[^0-9.]*([0-9]*)\.?([0-9]*)", s.replace("\u2212", "-"))
+    if not m:
+        return 0
+    digits = (m.group(1) + m.group(2)).lstrip("0")
+    return len(digits)
+
+
+def _axis_readings(axis, drawn):
+    """What a reader gets for the drawn data coordinates on this axis: the labels the axis' major formatter prints for them.
+    The default ScalarFormatter shows the data values themselves (strings None: the coordinate is the reading)."""
+    from matplotlib.ticker import ScalarFormatter
+    fmt = axis.get_major_formatter()
+    if isinstance(fmt, ScalarFormatter):
+        return {"formatter": type(fmt).__name__, "strings": None}
+    out = {"formatter": type(fmt).__name__, "strings": [], "probe": []}
+    try:
+        for v in drawn:
+            out["strings"].append(str(fmt(float(v), None)))
+        # how many significant digits the format prints (values without a short decimal expansion)
+        out["probe"] = [str(fmt(v, None)) for v in (1.0 / 3.0, 1000.0 / 3.0, 2e-3 / 3.0, 7e6 / 3.0)]
+    except Exception as e:   # noqa
+        out["error"] = "%s: %s" % (type(e).__name__, e)
+    return out
+
+
+def _axes_readings(ax, is3d, line):
+    """per axis of a trajectory plot: label, formatter readings of the drawn line's coordinates"""
+    axes = [ax.xaxis, ax.yaxis] + ([ax.zaxis] if is3d else [])
+    labels = [ax.get_xlabel(), ax.get_ylabel()] + ([ax.get_zlabel()] if is3d else [])
+    return [dict(_axis_readings(a, line[k]), label=labels[k], drawn=[hexf(float(v)) for v in line[k]])
+            for k, a in enumerate(axes) if k < len(line)]
+
+
 def impl_scenario(case):
     import matplotlib.pyplot as plt
     from mpl_toolkits.mplot3d import Axes3D
@@ -306,9 +348,13 @@ def impl_scenario(case):
             ax0 = fig0.axes[0]
             out["axis_labels_trajectories"] = [ax0.get_xlabel(), ax0.get_ylabel()] + ([ax0.get_zlabel()] if is3d else [])
             out["traj"] = _describe(list(ax0.lines), list(ax0.collections))
+            if len(ax0.lines) == 1:
+                out["readings"] = _axes_readings(ax0, is3d, out["traj"]["lines"][0])
         else:
             plot.traj(ax, mode, t1, "-", "black", "est", plot_start_end_markers=SETTINGS.plot_start_end_markers)
             out["traj"] = _describe(*w.new())
+            if len(out["traj"]["lines"]) == 1:
+                out["readings"] = _axes_readings(ax, is3d, out["traj"]["lines"][0])
         # --- traj_colormap
         err = d["err"]
         lo, hi = float(np.min(err)), float(np.max(err))
@@ -335,6 +381,10 @@ def impl_scenario(case):
         plot.traj_xyz(axarr, t1, start_timestamp=start, length_unit=unit)
         out["xyz"] = {"lines": [[_line_data(l) for l in a.lines] for a in axarr],
                       "ylabels": [a.get_ylabel() for a in axarr], "xlabels": [a.get_xlabel() for a in axarr]}
+        if all(len(a.lines) == 1 for a in axarr):
+            out["xyz"]["readings"] = [dict(_axis_readings(a.yaxis, out["xyz"]["lines"][i][0][1]), label=a.get_ylabel(),
+                                           drawn=[hexf(float(v)) for v in out["xyz"]["lines"][i][0][1]])
+                                      for i, a in enumerate(axarr)]
         angles = t1.get_orientations_euler(SETTINGS.euler_angle_sequence)
         out["angles"] = [_fl(r) for r in angles]
         fig3, axarr3 = plt.subplots(3)
@@ -461,6 +511,57 @@ def _brief(x, lim=6):
         return str(x)[:400]
 
 
+METRES_PER_UNIT = {"mm": 1e-3, "cm": 1e-2, "m": 1.0, "km": 1e3}     # what the unit names mean (not read from evo)
+READING_RTOL = 1e-5     # '%g' prints 6 significant digits: relative rounding error <= 5e-6
+
+
+def _parse_reading(s):
+    t = s.strip().replace("\u2212", "-").replace("$", "")
+    m = re.fullmatch(r"\\mathdefault\{(.*)\}", t)
+    if m:
+        t = m.group(1)
+    return float(t)
+
+
+def _reading_failure(where, rd, pos):
+    """The reading of a plotted point - the label the axis' major formatter prints for the drawn coordinate, or the
+    coordinate itself under matplotlib's default formatter - must be the trajectory's coordinate (metres) of the axis the
+    label names, expressed in the unit the label names. However the unit is realised (scaled tick labels, scaled data)."""
+    m = re.fullmatch(r"\$([xyz])\$ \((\w+)\)", rd["label"])
+    if m is None or m.group(2) not in METRES_PER_UNIT:
+        return None       # judged by the label comparison
+    letter, unit = m.group(1), m.group(2)
+    col = np.asarray(pos[:, "xyz".index(letter)], dtype=float)
+    drawn = [unhex(v) for v in rd["drawn"]]
+    if len(drawn) != len(col):
+        return None       # judged by the line-data comparison
+    if rd.get("error"):
+        return _tie("axis_reading", "%s: the axis formatter %s cannot be applied to a drawn coordinate: %s" % (
+            where, rd["formatter"], rd["error"]))
+    rtol = READING_RTOL
+    if rd["strings"] is None:
+        readings, shown = drawn, [repr(v) for v in drawn]
+    else:
+        try:
+            readings, shown = [_parse_reading(x) for x in rd["strings"]], rd["strings"]
+        except ValueError as e:
+            return _tie("axis_reading", "%s: tick label is not a number: %s" % (where, e))
+        digits = max([_sig_digits(x) for x in rd.get("probe", [])] or [0])
+        if 1 <= digits < 6:     # a coarser format than %g: half a unit of its last digit
+            rtol = max(rtol, 0.505 * 10.0 ** (1 - digits))
+    per = METRES_PER_UNIT[unit]
+    for k, (c, r) in enumerate(zip(col, readings)):
+        want = float(c) / per
+        if not abs(r - want) <= rtol * abs(want) + 1e-300:
+            return _viol("axis reading (%s)" % where,
+                         "%s: pose %d has %s = %r m = %r %s; it is drawn at data coordinate %r where the axis labelled %r reads %s "
+                         "(%s) - the reading is not the trajectory's coordinate in the unit the label names" % (
+                             where, k, letter, float(c), want, unit, drawn[k], rd["label"], shown[k],
+                             "tick labels by " + rd["formatter"] if rd["strings"] is not None else "no unit formatter installed"),
+                         want, shown[k])
+    return None
+
+
 def judge_scenario(case, val, out):
     if "error" in out:
         return _viol("call", "unexpected exception while plotting: " + out["error"])
@@ -487,6 +588,12 @@ def judge_scenario(case, val, out):
     if not same_bits(t["lines"][0], m_line):
         return _viol("trajectory line", "line data is not the trajectory's coordinates of the mode's axes in pose order",
                      _brief([c[:4] for c in m_line]), _brief([c[:4] for c in t["lines"][0]]))
+    pos1 = scenario_data(case)["poses"][:, :3, 3]
+    for rd in out.get("readings") or []:
+        f = _reading_failure("trajectory plot (%s)" % ("trajectories()" if case["entry"] == "trajectories" else "prepare_axis() + traj()"),
+                             rd, pos1)
+        if f is not None:
+            return f
     want_marks = list(m_marks) if st["plot_start_end_markers"] else []
     got_marks = [p for pts in t["points"] for p in pts]
     if len(t["points"]) != len(want_marks) or not same_bits(got_marks, want_marks):
@@ -553,6 +660,10 @@ def judge_scenario(case, val, out):
             return _viol("traj_xyz x data", "x data are not the timestamps (minus start time) / pose indices", _brief(mx), _brief(gx))
         if not same_bits(gy, my):
             return _viol("traj_xyz y data", "subplot %d does not show coordinate %d of the positions" % (i, i), _brief(my), _brief(gy))
+    for rd in x.get("readings") or []:
+        f = _reading_failure("traj_xyz()", rd, pos1)
+        if f is not None:
+            return f
     # ---- traj_rpy
     r = out["rpy"]
     if r["ylabels"] != ["$roll$ (deg)", "$pitch$ (deg)", "$yaw$ (deg)"] or r["xlabels"] != ["", "", m_xlabel]:
@@ -888,7 +999,9 @@ def run(ctx, replay=None, proofs_ok=True):
                    "either trajectory, x array of the error plot: none / seconds / distances / lap time / decreasing / "
                    "repeated values / arbitrary order); every scenario calls prepare_axis, "
                    "traj|trajectories, traj_colormap, draw_coordinate_axes, draw_correspondence_edges, traj_xyz, traj_rpy, "
-                   "speeds, error_array and compares every new artist's data with the Coq model; distinct by case; "
+                   "speeds, error_array and compares every new artist's data with the Coq model; on every length axis (trajectory plot, "
+                   "traj_xyz) the reading of each plotted pose (tick label of the drawn coordinate) is compared with the pose's "
+                   "coordinate in the labelled unit; distinct by case; "
                    "non-trivial = >= 3 poses, pairwise different coordinate columns, a non-identity rotation. "
                    "Translator validation cases (7 idx + 560 prepare_axis + tables) are counted in evaluations only.",
            "samples": (sc[:2] + sc[-2:] + ic[:2] + ic[-1:]),
